@@ -58,8 +58,15 @@ def _check(ctx, case, continuum):
     opt = oracles.optimum(cspec, dissim, cover=False, want=want)
     ctx.observe("oracle_methods", "+".join(sorted(opt["methods"])))
     ctx.observe("oracle_candidates_log2", opt["n_candidates"].bit_length())
-    if not opt["methods"] or not opt["agree"]:
-        ctx.inconclusive_because(f"oracle methods disagree or failed: {opt['methods']} on {ctx.current}")
+    if not opt["methods"]:
+        # the independent solver gave up within its time limit (loaded machine): this case is simply not judged; the
+        # number of such cases is reported, and the run is inconclusive only if they are more than a few
+        ctx.count("oracle-unavailable")
+        if ctx.monitors["oracle-unavailable"] > max(5, 0.05 * ctx.evaluations):
+            ctx.inconclusive_because("the independent MILP oracle timed out on more than 5 % of the cases")
+        return
+    if not opt["agree"]:
+        ctx.inconclusive_because(f"oracle methods disagree: {opt['methods']} on {ctx.current}")
         return
     ctx.count("M-OPT")
     ref = opt["value"]
@@ -87,6 +94,12 @@ def run(ctx):
     dspecs += [{"kind": "positional", "delta": 0.5},
                {"kind": "combined", "alpha": 3.0, "beta": 0.0, "delta": 2.0, "pos": None, "cat": None},
                {"kind": "combined", "alpha": 0.0, "beta": 1.0, "delta": 0.1, "pos": None, "cat": None}]
+    for _ in range(3):      # a few editing sessions first, whatever the time budget (deciding monitor)
+        cs0 = cases.gen_continuum(ctx.rng, n_annot=3, max_units=3, allow_empty=False, labels=cases.LABELS_SMALL)
+        case = {"continuum": cs0, "dissim": {"kind": "positional", "delta": 0.5}, "backend": "cbc",
+                "session": ac.gen_edit_ops(ctx.rng, cs0, cases.LABELS_SMALL, 3)}
+        ctx.begin_case(case)
+        check_case(ctx, case)
     n_cases = ctx.scale(250, 6000)
     for _ in range(n_cases):
         if ctx.out_of_time():
